@@ -43,7 +43,7 @@ pub fn stream_text() -> BoxedStrategy<String> {
     prop_oneof![
         7 => prop::sample::select(vec![
             "", "a", "é", "x=é", "é=x", "💖", "日本", "a b", "=", "ßa", "aß", "1.0", "€uro", "x€", "\u{7ff}\u{800}\u{ffff}\u{10000}",
-            "\u{feff}", "\u{feff}x", "x\u{feff}y", "\\n", "trail ", "tab\t", " lead", " ", "a  b", "sha1 00", "x \t",
+            "\u{feff}", "\u{feff}x", "x\u{feff}y", "\\n", "trail ", "tab\t", " lead", " ", "a  b", "sha1 00", "x \t", "progress\rbar", "a\rb\rc", "\u{7f}del", "nul\u{0}byte",
             "pkg-1.0", "cat/pkg",
         ])
         .prop_map(String::from),
@@ -132,7 +132,7 @@ pub struct Recipe {
 }
 
 fn recipe(kind: Kind) -> BoxedStrategy<Recipe> {
-    (prop::collection::vec(value(kind, text), 0..=2), 0u8..3, any::<u16>())
+    (prop::collection::vec(value(kind, text), 0..=2), 0u8..4, any::<u16>())
         .prop_map(|(junk, mode, split)| Recipe { junk, mode, split })
         .boxed()
 }
@@ -148,6 +148,16 @@ fn calls_for(i: usize, fin: &Val, r: &Recipe) -> Vec<Call> {
             let k = 1 + idx(r.split, l.len()); // prefix of 1..=len
             out.push(Call::Set(i, Val::L(l[..k].to_vec())));
             for s in &l[k..] {
+                out.push(Call::Push(i, s.clone()));
+            }
+        }
+        (Val::L(l), 3) => {
+            // junk sets, the list emptied with set(&[]), then pushes only
+            for j in &r.junk {
+                out.push(Call::Set(i, j.clone()));
+            }
+            out.push(Call::Set(i, Val::L(vec![])));
+            for s in l {
                 out.push(Call::Push(i, s.clone()));
             }
         }
